@@ -333,6 +333,10 @@ def run_time(case):
   if which == "impulse-vs-response":
     # the impulse response actually produced by running the filter, transformed, is the response
     h = fir_pool()[arg]
+    # the same taps with other gain-only denominators are run first in this process: nothing remembered
+    # from those calls may leak into this filter (several filters differing in the gain only)
+    for other in (1.0, 8.0, -a0):
+      list(ZFilter(list(h), [other])([1.0, 2.0, 0.5], zero=0.0))
     filt = ZFilter(list(h), [a0])
     imp = list(filt([1.0] + [0.0] * (len(h) + 2), zero=0.0))
     for w in ws[:16]:
@@ -344,6 +348,8 @@ def run_time(case):
     return R(None, len(h) > 1, which)
   if which == "exponential":
     h = fir_pool()[arg]
+    for other in (1.0, 8.0, -a0):
+      list(ZFilter(list(h), [other])([1.0, 2.0, 0.5], zero=0.0))
     filt = ZFilter(list(h), [a0]) if a0 != 1.0 else ZFilter(list(h))
     for w in ws[:12]:
       N = len(h) + 6
@@ -410,6 +416,18 @@ def run_time(case):
         if abs(v - e) > 32 * L * U * sum(abs(x) for x in fl):
           return bad("dft:multi-frequency", "dft over a list of frequencies must give each frequency's "
                      "defining sum, in the order given", {"w": w, "X": str(e)}, str(v))
+      # the frequencies as any iterable (tuple, one-shot iterator, generator, Stream - the documented
+      # `line(size, 0, 2 * pi, finish=False)` grid is a Stream): the list's answer
+      from audiolazy import Stream as _Stream
+      for fk, conv in (("tuple", tuple), ("iterator", iter), ("generator", lambda v: (f_ for f_ in v)),
+                       ("Stream", lambda v: _Stream(list(v))), ("map", lambda v: map(float, v))):
+        try:
+          alt = list(dft(list(fl), conv(list(order)), normalize=False))
+        except Exception as exc:
+          return bad("dft:frequency-container", "dft with the frequencies given as a %s raised" % fk, None, repr(exc)[:200])
+        if len(alt) != len(many) or any(abs(p_ - q_) > 1e-9 * (1 + abs(q_)) for p_, q_ in zip(alt, many)):
+          return bad("dft:frequency-container", "dft with the frequencies given as a %s must give the list's answer" % fk,
+                     [str(v_) for v_ in many[:4]], [str(v_) for v_ in alt[:4]])
     return R(None, True, which)
   if which == "linearity":
     other = [float(v) for v in ([1, 2, -3, 0.5, 0, 1, 1, -1] * (L // 8 + 1))[:L]]
